@@ -396,6 +396,36 @@ func c01CycleCases() []c01Case {
 		}
 		add(fmt.Sprintf("include-cycle-%d", n), files)
 	}
+	// include cycles closed through an entry that lists several files (the cycle edge first or second), and through
+	// the second entry of an include list; all files live in one directory
+	for n := 1; n <= 3; n++ {
+		for _, shape := range []string{"multipath-cycle-first", "multipath-cycle-second", "second-entry"} {
+			var files []memFile
+			fname := func(i int) string {
+				if i == 0 {
+					return "compose.yaml"
+				}
+				return fmt.Sprintf("inc%d.yaml", i)
+			}
+			for i := 0; i < n; i++ {
+				nxt, side := fname((i+1)%n), "side.yaml"
+				var inc []any
+				switch shape {
+				case "multipath-cycle-first":
+					inc = []any{map[string]any{"path": []any{nxt, side}}}
+				case "multipath-cycle-second":
+					inc = []any{map[string]any{"path": []any{side, nxt}}}
+				case "second-entry":
+					inc = []any{fmt.Sprintf("other%d.yaml", i), nxt}
+					files = append(files, memFile{Name: fmt.Sprintf("other%d.yaml", i), Content: fmt.Sprintf("services:\n  other%d:\n    image: x\n", i)})
+				}
+				doc := map[string]any{"services": map[string]any{fmt.Sprintf("s%d", i): map[string]any{"image": "x"}}, "include": inc}
+				files = append(files, memFile{Name: fname(i), Content: emitYAML(doc, nil)})
+			}
+			files = append(files, memFile{Name: "side.yaml", Content: "services:\n  side:\n    image: x\n    hostname: side\n"})
+			add(fmt.Sprintf("include-cycle-%s-%d", shape, n), files)
+		}
+	}
 	// depends_on cycles
 	for n := 1; n <= 4; n++ {
 		svcs := map[string]any{"aaa": map[string]any{"image": "x", "depends_on": []any{"s0"}}}
